@@ -221,8 +221,8 @@ def idxDel (ix : List (String × Nat)) (k : String) : List (String × Nat) := te
 def State.setIdx (s : State) (k : String) (v : Nat) : State := { s with index := idxSet s.index k v }
 def State.maxIdx (s : State) (k : String) (v : Nat) : State := { s with index := idxMax s.index k v }
 def State.delIdx (s : State) (k : String) : State := { s with index := idxDel s.index k }
-/-- `indexUpdateMaxTxn` on the table row and on its `peer.internal:` twin -/
-def State.maxIdx2 (s : State) (k : String) (v : Nat) : State := (s.maxIdx k v).maxIdx ("peer.internal:" ++ k) v
+/-- `indexUpdateMaxTxn` on the table row and on its `peer.~:` twin -/
+def State.maxIdx2 (s : State) (k : String) (v : Nat) : State := (s.maxIdx k v).maxIdx ("peer.~:" ++ k) v
 
 /-! ### lookups shared by several table families -/
 
